@@ -131,6 +131,26 @@ impl Tr {
         }
     }
 
+    /// Type of expression `e` in environment `env`, found by a dry run of the translation (the text is discarded).
+    /// Used when the expected type of an `if` / `match` in value position is not known from the context.
+    fn probe_ty(&self, e: &Expr, env: &Env) -> Ty {
+        if diverges(e) {
+            return Ty::Unknown;
+        }
+        let cell: Rc<std::cell::RefCell<Ty>> = Rc::new(std::cell::RefCell::new(Ty::Unknown));
+        let c2 = cell.clone();
+        let saved = self.fresh.get();
+        let r = std::panic::catch_unwind(std::panic::AssertUnwindSafe(|| {
+            self.expr(e, env.clone(), &Ty::Unknown, K::Fn(Box::new(move |_tr, _v, t, _env| { *c2.borrow_mut() = t; String::new() })))
+        }));
+        self.fresh.set(saved);
+        if r.is_err() {
+            return Ty::Unknown;
+        }
+        let t = cell.borrow().clone();
+        t
+    }
+
     fn kcall(call: &Call) -> K {
         let c = call.clone();
         K::Fn(Box::new(move |tr, v, _t, env| c(tr, &v, env)))
@@ -551,6 +571,17 @@ impl Tr {
         let vars = self.assigned_vars(&bodies, &env);
         let has_value = want_value && i.else_branch.is_some();
         let falls = [!diverges(&then_e), i.else_branch.as_ref().map(|(_, e)| !diverges(e)).unwrap_or(true)];
+        let mut expect_owned = expect.clone();
+        if has_value && !expect_owned.known() && !matches!(&*i.cond, Expr::Let(_)) {
+            for b in &bodies {
+                let t = self.probe_ty(b, &env);
+                if t.known() {
+                    expect_owned = t;
+                    break;
+                }
+            }
+        }
+        let expect = &expect_owned;
         let vty = if has_value { Some(expect.clone()) } else { None };
         let (def, mut ks) = self.distribute(&falls, vars, vty, &env, k);
         let k_else = ks.pop().unwrap();
@@ -615,6 +646,23 @@ impl Tr {
         let bodies: Vec<&Expr> = m.arms.iter().map(|a| &*a.body).collect();
         let vars = self.assigned_vars(&bodies, &env);
         let falls: Vec<bool> = m.arms.iter().map(|a| !diverges(&a.body)).collect();
+        let mut expect_owned = expect.clone();
+        if want_value && !expect_owned.known() {
+            let st = self.probe_ty(&m.expr, &env);
+            for a in &m.arms {
+                let mut env2 = env.clone();
+                let ok = std::panic::catch_unwind(std::panic::AssertUnwindSafe(|| { let _ = self.pat(&a.pat, &st, &mut env2); })).is_ok();
+                if !ok {
+                    continue;
+                }
+                let t = self.probe_ty(&a.body, &env2);
+                if t.known() {
+                    expect_owned = t;
+                    break;
+                }
+            }
+        }
+        let expect = &expect_owned;
         let vty = if want_value { Some(expect.clone()) } else { None };
         let (def, ks) = self.distribute(&falls, vars, vty, &env, k);
         let arms: Vec<Arm> = m.arms.clone();
@@ -637,9 +685,15 @@ impl Tr {
                     let (ps, ap) = tr.pat(&arm.pat, &st, &mut env2);
                     let guard = arm.guard.as_ref().map(|(_, g)| {
                         let s = tr.expr(g, env2.clone(), &Ty::Bool, K::Fn(Box::new(|_, v, _, _| format!("\u{1}{v}"))));
-                        let (pre, cond) = s.split_once('\u{1}').expect("guard marker");
-                        assert!(!cond.contains('\n'), "guard condition with control flow");
-                        (pre.to_string(), cond.to_string())
+                        match s.split_once('\u{1}') {
+                            Some((pre, cond)) if !cond.contains('\n') && s.matches('\u{1}').count() == 1 => (pre.to_string(), cond.to_string()),
+                            _ => {
+                                // the guard itself has control flow (e.g. `a && f(x)` with a call): translate it in full
+                                // continuation style; \u{3} stands for the arm's body, \u{2} for the name of the rest thunk
+                                let t = tr.expr(g, env2.clone(), &Ty::Bool, K::Fn(Box::new(|_, v, _, _| format!("(if {v} then \u{3} else \u{2} tt)"))));
+                                ("\u{4}".to_string(), t)
+                            }
+                        }
                     });
                     let k = match k {
                         K::Dead => K::Dead,
